@@ -476,7 +476,7 @@ class Interp:
     def __init__(self, db, space, nbytes=8, signed_char_reads=True):
         self.db = db; self.sp = space; self.findings = []; self.steps = 0
         self.avail = space.byname.get('avail')
-        self.reads = collections.Counter(); self.intercept = {}; self.ptr_compare = None; self.callsite = None; self.construct_hook = None; self.objexpr = None
+        self.reads = collections.Counter(); self.intercept = {}; self.ptr_compare = None; self.callsite = None; self.construct_hook = None; self.objexpr = None; self.buffer_min = False
 
     # ---- helpers
     def byte(self, k, t='unsigned char'):
@@ -930,6 +930,10 @@ class Interp:
         if cn == 'empty':
             yield Val({self.avail.level: [1 if a <= st.pos else 0 for a in range(self.avail.size)]}), st
         elif cn == 'size':
+            if self.buffer_min and av and av[0].is_const():
+                # an incremental input that buffers as little as its contract allows: size( a ) is min( remaining, a )
+                a0 = av[0].off
+                yield Val({self.avail.level: [min(max(a - st.pos, 0) if a < CAP else a0, a0) for a in range(self.avail.size)]}), st; return
             yield Val({self.avail.level: [(max(a - st.pos, 0) if a < CAP else MANY + max(CAP - st.pos, 0)) for a in range(self.avail.size)]}), st
         elif cn in ('peek_uint8', 'peek_char', 'peek_byte'):
             if av and not av[0].is_const(): raise Unmodelled('peek at a symbolic offset')
